@@ -2,7 +2,7 @@
    gen/Paths_c04.v, regenerated from /repo's source by tools/genpaths on every
    run, so these theorems are re-checked against what the code says now. *)
 From Coq Require Import List String Bool Arith ZArith.
-From Verif Require Import c04.Events c04.Model c04.Close c04.Spec c04.Proofs c04.Proofs_Close gen.Paths_c04.
+From Verif Require Import lib.Wire c04.Events c04.Model c04.Close c04.Accept c04.Spec c04.Proofs c04.Proofs_Close c04.Proofs_Accept gen.Paths_c04.
 Import ListNotations.
 
 (* Every control-flow path of every listed entry point — with the listed callees
@@ -60,6 +60,56 @@ Theorem c04_close_invariant : forall ops, sinv (srun sw0 ops).
 Proof. intros ops. exact (sinv_run ops sw0 sinv0). Qed.
 Print Assumptions c04_close_invariant.
 
+(* ---- the upgrader listener's accept pipeline against listener.Close (Accept.v) ----
+   Every step of an in-flight accept is one transition (raw conn accepted with its
+   scope; parked at the threshold; upgrading; upgrade failed; upgraded and waiting
+   to be handed over; dropped by the accept timeout or the cancelled context;
+   received by Accept; received by Close's drain loop), and so is every step of
+   Close (closing the raw listener, cancelling the context, draining, returning)
+   and of the accept loop's exit (wg.Wait, close(l.incoming)).
+
+   "a close racing with any of these": for EVERY schedule, once listener.Close has
+   returned, every connection the listener ever accepted is released (raw conn
+   closed, scope done) or has been received by the caller of Accept, who owns it;
+   the listener and its goroutines hold nothing. *)
+Theorem c04_accept_close_nothing_held : forall c ops,
+  let s := arun_l (l0 c) ops in
+  Accept.cl s = CReturned ->
+  forallb settled (aitems s) = true /\ forallb (fun x => negb (held_by_listener x)) (aitems s) = true.
+Proof.
+  intros c ops s Hc. pose proof (ainv_run ops (l0 c) (ainv0 c)) as Hs.
+  split; [exact (returned_settled _ Hs Hc)|exact (returned_nothing_held _ Hs Hc)].
+Qed.
+Print Assumptions c04_accept_close_nothing_held.
+
+(* "no goroutine started for the attempt keeps running": after Close has returned
+   no step of the accept loop, of a per-connection goroutine or of Close is
+   enabled; only the caller of Accept can still move (return the connection it
+   received, or get the listener's error). *)
+Theorem c04_accept_close_no_step_left : forall c ops o,
+  let s := arun_l (l0 c) ops in
+  Accept.cl s = CReturned -> accepter_step o = false -> astep_opt s o = None.
+Proof.
+  intros c ops o s Hc Ho. exact (returned_no_listener_step _ o (ainv_run ops (l0 c) (ainv0 c)) Hc Ho).
+Qed.
+Print Assumptions c04_accept_close_no_step_left.
+
+(* the monitor that judges the harness's kind-8 case lines accepts the line of
+   every run of the model in which Close has returned and Accept is not holding
+   a connection it has not returned yet *)
+Theorem c04_accept_monitor_accepts_model : forall c ops,
+  let s := arun_l (l0 c) ops in
+  Accept.cl s = CReturned -> has AReceived (aitems s) = false ->
+  monitor_case (8 :: model_case s)%Z = [].
+Proof.
+  intros c ops s Hc Hr. exact (model_case_accepted _ (ainv_run ops (l0 c) (ainv0 c)) Hc Hr).
+Qed.
+Print Assumptions c04_accept_monitor_accepts_model.
+
+Theorem c04_accept_invariant : forall c ops, ainv (arun_l (l0 c) ops).
+Proof. intros c ops. exact (ainv_run ops (l0 c) (ainv0 c)). Qed.
+Print Assumptions c04_accept_invariant.
+
 (* ---- non-vacuity ---------------------------------------------------------- *)
 (* a race: conn 0 registered with a stream, the swarm closes, conn 1's add and
    a second stream on conn 0 arrive late; at quiescence everything is released *)
@@ -104,3 +154,31 @@ Example unclassified_call_rejected :
   path_ok true st_raw
     (classify_path fn_upgrade_inner [Call "conn.Shutdown" NA; Call "conn.Close" NA; Ret RErr]) = false.
 Proof. vm_compute. reflexivity. Qed.
+
+(* accept pipeline: queue length 1; conn 0 is upgraded and handed to Accept, conn 1 is
+   upgraded and waits, conn 2 is parked at the threshold when Close is called: Close
+   drains conn 1, conn 2's upgrade fails on the cancelled context, the loop leaves *)
+Example accept_race_example :
+  let s := arun_l (l0 1) [LAccept; LSpawn 0; UpOk 0; AcceptCall; AcceptRecv 0; AcceptRetLive 0; LAccept; LSpawn 1; UpOk 1;
+                          LAccept; CloseCall; CloseRaw; CancelCtx; DrainRecv 1; DrainClose 1; LSpawn 2; UpFail 2; FailDone 2;
+                          LExit; LWgDone; CloseRet] in
+  Accept.cl s = CReturned /\ aitems s = [AHanded; AReleased; AReleased] /\ monitor_case (8 :: model_case s)%Z = [].
+Proof. vm_compute. repeat split; reflexivity. Qed.
+
+(* Close cannot return while an upgraded connection still waits: the premise of the theorems is not trivially reachable *)
+Example accept_close_waits :
+  let s := arun_l (l0 1) [LAccept; LSpawn 0; UpOk 0; CloseCall; CloseRaw; CancelCtx; LExit; LWgDone; CloseRet] in
+  Accept.cl s = CCancelled /\ ph s = PExit.
+Proof. vm_compute. split; reflexivity. Qed.
+
+(* the monitor rejects a connection whose raw conn was left open, leftover usage, and a raw listener left open *)
+Example accept_monitor_rejects :
+  (monitor_case [8; 1; 1;0;0;0;0;0; 1; 0;0; 0]%Z <> []) /\ (monitor_case [8; 1; 1;1;0;0;0;0; 1; 0;1; 0]%Z <> []) /\
+  (monitor_case [8; 1; 0;0;0;0;0;0; 1; 0;1; 0]%Z <> []) /\ (monitor_case [8; 1; 1;0;0;0;0;0; 1; 0;1; 0]%Z = []).
+Proof. vm_compute. repeat split; try discriminate; reflexivity. Qed.
+
+(* conformance rejects a trace in which Close returns before the queued connection was closed *)
+Example accept_conform_rejects :
+  (conform_case [8; 1; 1;0;0;0;0;0; 1; 0;1; 4; 1;0; 6;0; 7;0; 2;0]%Z <> []) /\
+  (conform_case [8; 1; 1;0;0;0;0;0; 1; 0;1; 4; 1;0; 6;0; 2;0; 7;0]%Z = []).
+Proof. vm_compute. split; [discriminate|reflexivity]. Qed.
